@@ -71,7 +71,11 @@ Lin(c) ==
           /\ pend' = [pend EXCEPT ![c].lin = TRUE, ![c].res = IF o.p = 3 THEN VecTerm(pval[3]) ELSE ParamTerm(o.p, pval[o.p])]
        \/ /\ o.op = "art" /\ UNCHANGED pval
           /\ pend' = [pend EXCEPT ![c].lin = TRUE,
-                                   ![c].res = IF o.p = 3 THEN VecTerm(pval[3]) ELSE Term(gwire, pval, gprod[o.p])]
+                                   \* a producer whose evaluation panics hands nothing out: the call ends with the
+                                   \* panic (recovered by the caller, as the edit server does) and changes nothing
+                                   ![c].res = IF o.p = 3 THEN VecTerm(pval[3])
+                                              ELSE IF Panics(gwire, pval, gprod[o.p]) THEN "PANIC"
+                                              ELSE Term(gwire, pval, gprod[o.p])]
     /\ UNCHANGED <<l, clean, hno, gwire, gprod>>
 
 TResp ==
